@@ -2,7 +2,9 @@ package main
 
 import (
 	"bufio"
+	"errors"
 	"fmt"
+	"io"
 	"os"
 	"os/exec"
 	"path/filepath"
@@ -126,11 +128,50 @@ func runDaemonFault(cause string, load bool) string {
 	if cause == "writeerr" {
 		out = "/dev/full"
 	}
+	var outR *os.File
+	if cause == "writeerr-audit" {
+		// the events output is a FIFO whose reader goes away later: writes then fail with EPIPE
+		odir, err := os.MkdirTemp("", "verif-out")
+		if err != nil {
+			return "X:startfail"
+		}
+		defer os.RemoveAll(odir)
+		out = filepath.Join(odir, "events-fifo")
+		if err := syscall.Mkfifo(out, 0o600); err != nil {
+			return "X:startfail"
+		}
+		outR, err = os.OpenFile(out, os.O_RDONLY|syscall.O_NONBLOCK, 0)
+		if err != nil {
+			return "X:startfail"
+		}
+		go func(r *os.File) { // drain what the daemon writes until the reader is closed
+			buf := make([]byte, 1<<16)
+			for {
+				_, err := r.Read(buf)
+				switch {
+				case err == nil:
+				case err == io.EOF: // no writer (yet)
+					time.Sleep(time.Millisecond)
+				case errors.Is(err, os.ErrClosed):
+					return
+				default:
+					time.Sleep(time.Millisecond)
+				}
+			}
+		}(outR)
+	}
 	d, err := startDaemon(sshdFifo, auditFifo, out)
 	if err != nil {
 		return "X:startfail"
 	}
 	defer d.stop()
+	if cause == "writeerr-audit" {
+		// a correlated session, so that the audit side writes an event for every record of the load
+		d.sshdW.Write([]byte("9 Accepted password for bob from 1.2.3.4 port 22 ssh2\n"))
+		d.auditW.Write([]byte("type=LOGIN msg=audit(1600000000.000:1): pid=9 uid=0 old-auid=4294967295 auid=1000 tty=(none) old-ses=4294967295 ses=77 res=1\n"))
+		time.Sleep(100 * time.Millisecond)
+	}
+
 	if (sshdFifo && d.sshdW == nil) || (auditFifo && d.auditW == nil) {
 		// a mis-configured path makes the daemon exit before it opens the other pipe: that is the
 		// behaviour under test for the notfifo causes
@@ -190,6 +231,11 @@ func runDaemonFault(cause string, load bool) string {
 		d.auditW.Write([]byte("this is not an audit record\n"))
 	case "writeerr":
 		d.sshdW.Write([]byte("77 Invalid user mallory from 10.9.8.7 port 4711\n"))
+	case "writeerr-audit":
+		outR.Close() // from now on every event write fails
+		if !load {
+			d.auditW.Write([]byte(auditCmdLine(900000001)))
+		}
 	case "sigterm":
 		d.cmd.Process.Signal(syscall.SIGTERM)
 	case "sigint":
